@@ -176,97 +176,123 @@ def tupleOfTail (v : Val) : Except PyErr Val :=
   | .tuple xs | .list xs => .ok (.tuple xs.tail)
   | _ => .error unmodelled
 
-/-- The body of the `while` loop for one popped edge.  Mutations performed before an
-exception is raised persist, so the node table is returned in both cases. -/
+/-- `post_node.input_type["input"][1]` (Conv1d) / `tuple(post_node.input_type["input"][1:])` -/
+def convInputShape (post2 : Node) : Except PyErr Val := do
+  let it ← getItem post2.inputType "input"
+  if post2.kind == "Conv1d" then shapeIndex it 1 else tupleOfTail it
+
+/-- the Conv output type recomputed from its (just set) `input_shape` -/
+def convOutputType (post3 : Node) (ishape : Val) : Except PyErr Val := do
+  let w ← match post3.field? "weight" with | some w => pure w | Option.none => throw .attributeError
+  let wsh ← getShape w
+  if wsh.length < 1 then throw .indexError
+  let kernel := Val.tuple ((wsh.drop 2).map fun k => Val.int (Int.ofNat k))
+  let out ← calculateConvOutput ishape ((post3.field? "padding").getD .none)
+    ((post3.field? "dilation").getD .none) kernel ((post3.field? "stride").getD .none)
+  pure (typeDict "output" (shapeArray (Int.ofNat (wsh.getD 0 0) :: out)))
+
+/-- Step 3 of the loop body for a Conv node whose output type is undefined. -/
+def inferConv (post2 : Node) : Node × Option PyErr :=
+  match convInputShape post2 with
+  | .error e => (post2, some e)
+  | .ok ishape =>
+    match convOutputType (post2.setField "input_shape" ishape) ishape with
+    | .ok t => ((post2.setField "input_shape" ishape).setOutputType t, Option.none)
+    | .error e => (post2.setField "input_shape" ishape, some e)
+
+/-- the pooled output type -/
+def poolOutputType (pre post2 : Node) : Except PyErr Val := do
+  let po ← getItem pre.outputType "output"
+  let spatial ← shapeTail po
+  let out ← calculateConvOutput spatial ((post2.field? "padding").getD .none) (.int 1)
+    ((post2.field? "kernel_size").getD .none) ((post2.field? "stride").getD .none)
+  let cv ← shapeIndex (← getItem post2.inputType "input") 0
+  let c ← match Val.asInt? cv with | some c => pure c | Option.none => throw unmodelled
+  -- `np.array([c, *out])`: a lone numpy integer keeps its own dtype
+  let arr := match out, cv with
+    | [], .npscalar dt d => Val.arr dt [1] d
+    | _, _ => shapeArray (c :: out)
+  pure (typeDict "output" arr)
+
+/-- Step 3 for a pooling node. -/
+def inferPool (pre post2 : Node) : Node × Option PyErr :=
+  match poolOutputType pre post2 with
+  | .ok t => (post2.setOutputType t, Option.none)
+  | .error e => (post2, some e)
+
+/-- input shape and flattened shape of a Flatten node -/
+def flattenShapes (post2 : Node) : Except PyErr (List Int × List Int) := do
+  let it ← getItem post2.inputType "input"
+  let shp ← shapeInts it
+  let s ← match (post2.field? "start_dim").bind Val.asInt? with | some s => pure s | Option.none => throw unmodelled
+  let e ← match (post2.field? "end_dim").bind Val.asInt? with | some s => pure s | Option.none => throw unmodelled
+  pure (shp, calcFlattenOutput shp s e)
+
+/-- Step 3 for a Flatten node. -/
+def inferFlatten (post2 : Node) : Node × Option PyErr :=
+  match flattenShapes post2 with
+  | .error e => (post2, some e)
+  | .ok (shp, out) =>
+    -- the element-count assertion comes after the assignment
+    if Py.prod shp == Py.prod out then (post2.setOutputType (typeDict "output" (shapeArray out)), Option.none)
+    else (post2.setOutputType (typeDict "output" (shapeArray out)), some .assertionError)
+
+/-- `undef_post_input_type or type_mismatch` (both are evaluated before either is used, so an
+error while comparing is raised even when the input type is undefined) -/
+def needsInput (pre post : Node) : Except PyErr Bool := do
+  let lo ← typeLen pre.outputType
+  let li ← typeLen post.inputType
+  let mismatch ← if lo != li then pure true else do
+    let a ← singleValue pre.outputType
+    let b ← singleValue post.inputType
+    pure (!(← shapeEq a b))
+  pure (typeUndefined post.inputType || mismatch)
+
+/-- Step 1 of the loop body: the successor's input type (taken from the predecessor's output
+type when undefined or different). -/
+def inferInput (pre post : Node) : Except PyErr Node :=
+  match needsInput pre post with
+  | .error e => .error e
+  | .ok false => .ok post
+  | .ok true =>
+    match renameKeys "output" "input" pre.outputType with
+    | .error e => .error e
+    | .ok t => .ok (post.setInputType t)
+
+/-- Step 2: Output nodes mirror their input type. -/
+def mirrorOutput (post1 : Node) : Except PyErr Node :=
+  if post1.isKind "Output" then do
+    pure (post1.setOutputType (← renameKeys "input" "output" post1.inputType))
+  else pure post1
+
+/-- Step 3: the successor's output type, if still undefined. -/
+def inferOutput (pre post2 : Node) : Node × Option PyErr :=
+  if !(typeUndefined post2.outputType) then (post2, Option.none)
+  else if post2.isKind "Conv1d" || post2.isKind "Conv2d" then inferConv post2
+  else if post2.isKind "SumPool2d" || post2.isKind "AvgPool2d" then inferPool pre post2
+  else if post2.isKind "Flatten" then inferFlatten post2
+  else (post2, Option.none)
+
+/-- The body of the `while` loop, on the two node objects: the successor as the step leaves
+it (mutations performed before an exception is raised persist) and the error, if raised. -/
+def stepNode (pre post : Node) : Node × Option PyErr :=
+  match inferInput pre post with
+  | .error e => (post, some e)
+  | .ok post1 =>
+    match mirrorOutput post1 with
+    | .error e => (post1, some e)
+    | .ok post2 => inferOutput pre post2
+
+/-- The body of the `while` loop for one popped edge, on the node table. -/
 def processEdge (nodes : Nodes) (preKey postKey : String) : Nodes × Option PyErr :=
   match lookup preKey nodes, lookup postKey nodes with
   | Option.none, _ => (nodes, some .keyError)
   | _, Option.none => (nodes, some .keyError)
   | some pre, some post =>
-    if pre.isKind "NIRGraph" || post.isKind "NIRGraph" then (nodes, some .notImplementedError) else
-    -- 1. input type of the successor
-    let undefIn := typeUndefined post.inputType
-    let step1 : Except PyErr Node := do
-      let lo ← typeLen pre.outputType
-      let li ← typeLen post.inputType
-      let mismatch ← if lo != li then pure true else do
-        let a ← singleValue pre.outputType
-        let b ← singleValue post.inputType
-        pure (!(← shapeEq a b))
-      if undefIn || mismatch then
-        pure (post.setInputType (← renameKeys "output" "input" pre.outputType))
-      else pure post
-    match step1 with
-    | .error e => (nodes, some e)
-    | .ok post1 =>
-      -- 2. Output nodes mirror their input type
-      let step2 : Except PyErr Node :=
-        if post1.isKind "Output" then do
-          pure (post1.setOutputType (← renameKeys "input" "output" post1.inputType))
-        else pure post1
-      match step2 with
-      | .error e => (setNode nodes postKey post1, some e)
-      | .ok post2 =>
-        -- 3. output type of the successor
-        if !(typeUndefined post2.outputType) then (setNode nodes postKey post2, Option.none) else
-        match post2.kind with
-        | "Conv1d" | "Conv2d" =>
-          let r : Except PyErr Node × Node := 
-            match (do
-              let it ← getItem post2.inputType "input"
-              if post2.kind == "Conv1d" then shapeIndex it 1 else tupleOfTail it) with
-            | .error e => (.error e, post2)
-            | .ok ishape =>
-              let post3 := post2.setField "input_shape" ishape
-              ((do
-                let w ← match post3.field? "weight" with | some w => pure w | Option.none => throw .attributeError
-                let wsh ← getShape w
-                if wsh.length < 1 then throw .indexError
-                let kernel := Val.tuple ((wsh.drop 2).map fun k => Val.int (Int.ofNat k))
-                let out ← calculateConvOutput ishape ((post3.field? "padding").getD .none)
-                  ((post3.field? "dilation").getD .none) kernel ((post3.field? "stride").getD .none)
-                pure (post3.setOutputType (typeDict "output" (shapeArray (Int.ofNat (wsh.getD 0 0) :: out)))))
-               , post3)
-          match r with
-          | (.ok post4, _) => (setNode nodes postKey post4, Option.none)
-          | (.error e, partialNode) => (setNode nodes postKey partialNode, some e)
-        | "SumPool2d" | "AvgPool2d" =>
-          let r : Except PyErr Node := do
-            let po ← getItem pre.outputType "output"
-            let spatial ← shapeTail po
-            let out ← calculateConvOutput spatial ((post2.field? "padding").getD .none) (.int 1)
-              ((post2.field? "kernel_size").getD .none) ((post2.field? "stride").getD .none)
-            let cv ← shapeIndex (← getItem post2.inputType "input") 0
-            let c ← match Val.asInt? cv with | some c => pure c | Option.none => throw unmodelled
-            -- `np.array([c, *out])`: a lone numpy integer keeps its own dtype
-            let arr := match out, cv with
-              | [], .npscalar dt d => Val.arr dt [1] d
-              | _, _ => shapeArray (c :: out)
-            pure (post2.setOutputType (typeDict "output" arr))
-          match r with
-          | .ok post4 => (setNode nodes postKey post4, Option.none)
-          | .error e => (setNode nodes postKey post2, some e)
-        | "Flatten" =>
-          let r : Except PyErr Node := do
-            let it ← getItem post2.inputType "input"
-            let shp ← shapeInts it
-            let s ← match (post2.field? "start_dim").bind Val.asInt? with | some s => pure s | Option.none => throw unmodelled
-            let e ← match (post2.field? "end_dim").bind Val.asInt? with | some s => pure s | Option.none => throw unmodelled
-            let out := calcFlattenOutput shp s e
-            pure (post2.setOutputType (typeDict "output" (shapeArray out)))
-          match r with
-          | .ok post4 =>
-            -- the element-count assertion comes after the assignment
-            let ok := (do
-              let a ← shapeInts (← getItem post4.inputType "input")
-              let b ← shapeInts (← getItem post4.outputType "output")
-              pure (Py.prod a == Py.prod b) : Except PyErr Bool)
-            match ok with
-            | .ok true => (setNode nodes postKey post4, Option.none)
-            | .ok false => (setNode nodes postKey post4, some .assertionError)
-            | .error e => (setNode nodes postKey post4, some e)
-          | .error e => (setNode nodes postKey post2, some e)
-        | _ => (setNode nodes postKey post2, Option.none)
+    if pre.isKind "NIRGraph" || post.isKind "NIRGraph" then (nodes, some .notImplementedError)
+    else
+      let r := stepNode pre post
+      (setNode nodes postKey r.1, r.2)
 
 /-- `_forward_type_inference()`: final node table, final `seen`, error if raised. -/
 def forwardInference (g : Node) : Nodes × List String × Option PyErr :=
